@@ -1388,9 +1388,6 @@ def doc_literal_value(lit):
     return ("text", lit)
 
 
-KF_HELP_SEND_BYTES = "kf_c20_help_send_bytes"
-
-
 def group_doc_defaults(R):
     """(C) every default that docs/arguments.rst, runner.HELP and docs/runner.rst state, against the attribute of the
     real Adjustments() built without arguments (a literal other than None/True/False/[] goes through the parameter's
@@ -1430,11 +1427,10 @@ def group_doc_defaults(R):
             except Exception as e:
                 doc_val, ok = "EXN " + exn_name(e), False
             if not ok:
-                kf = KF_HELP_SEND_BYTES if (key, name, lit) == ("help", "send_bytes", "18000") else None
                 R.violation("docs-default:%s:%s" % (key, name),
                             "%s states that %s defaults to %s; Adjustments().%s is %r" % (what, name, lit, name, actual),
                             {"kind": "docs-default", "source": what, "name": name, "literal": lit, "expected": "%r" % (actual,),
-                             "observed": "documented %s" % lit, "failing_input_found": True}, kf)
+                             "observed": "documented %s" % lit, "failing_input_found": True})
 
         def cb(a, toks=toks, what=what):
             if a.split(" ") != toks and not (a == "" and not toks):
